@@ -7,6 +7,7 @@ mod hubctl;
 mod hubsched;
 mod hubwire;
 mod hubsync;
+mod bisync;
 mod c20;
 
 fn main() {
@@ -23,6 +24,7 @@ fn main() {
         "c12" => hubwire::main_c12(args),
         "c11" => hubwire::main_c11(args),
         "c13" => hubsync::main(args),
+        "c02" => bisync::main(args),
         "c20" => c20::main(args),
         _ => {
             eprintln!("unknown command {cmd}");
